@@ -24,6 +24,29 @@ type ParserZH struct {
 	// 1) start from another line OR
 	// 2) seperate former statement with '；'
 	stmtCompleteFlag bool
+	// exprDepth - how many expressions are being parsed inside one another right now
+	exprDepth int
+}
+
+// maxExprDepth - expressions nested deeper than this are a syntax error (the parser is
+// recursive: an input of a few million opening brackets would otherwise overflow the
+// stack of the host process, which no recover() can catch)
+const maxExprDepth = 10000
+
+// enterExpr / leaveExpr - bracket the parsing of one (possibly nested) expression
+func (p *ParserZH) enterExpr() {
+	p.exprDepth++
+	if p.exprDepth > maxExprDepth {
+		startIdx := 0
+		if p.TokenP2 != nil {
+			startIdx = p.TokenP2.StartIdx
+		}
+		panic(zerr.NestTooDeep(startIdx))
+	}
+}
+
+func (p *ParserZH) leaveExpr() {
+	p.exprDepth--
 }
 
 // NewParserZH -
